@@ -81,6 +81,10 @@ int lemma_mt_mult_kernel(struct forest *fa, struct forest *fb, struct forest *fc
 }
 int lemma_mt_mult_shortcuts(struct forest *fa, struct forest *fb, struct forest *fc, node_handle a, node_handle b)
 {
+#ifdef ARITH_SMALL_OPERANDS
+    /* BOUNDED variant: 64-bit multiply / divide / remainder equivalences do not finish on any SAT back end; operands below 2^ARITH_SMALL_OPERANDS in magnitude */
+    { long sa_ = dec_(fa, a), sb_ = dec_(fb, b); __CPROVER_assume(-(1L << ARITH_SMALL_OPERANDS) < sa_ && sa_ < (1L << ARITH_SMALL_OPERANDS) && -(1L << ARITH_SMALL_OPERANDS) < sb_ && sb_ < (1L << ARITH_SMALL_OPERANDS)); }
+#endif
     int ok = 0;
     node_handle c;
     /* first-argument shortcut: whenever the predicate fires, the kernel raises nothing and yields the (possibly adjusted) first operand */
@@ -102,6 +106,10 @@ void h_mt_mult_shortcuts(void) { struct forest *fa, *fb, *fc; node_handle w_a = 
 
 int lemma_mt_div_kernel(struct forest *fa, struct forest *fb, struct forest *fc, node_handle a, node_handle b)
 {
+#ifdef ARITH_SMALL_OPERANDS
+    /* BOUNDED variant: 64-bit multiply / divide / remainder equivalences do not finish on any SAT back end; operands below 2^ARITH_SMALL_OPERANDS in magnitude */
+    { long sa_ = dec_(fa, a), sb_ = dec_(fb, b); __CPROVER_assume(-(1L << ARITH_SMALL_OPERANDS) < sa_ && sa_ < (1L << ARITH_SMALL_OPERANDS) && -(1L << ARITH_SMALL_OPERANDS) < sb_ && sb_ < (1L << ARITH_SMALL_OPERANDS)); }
+#endif
     long av = dec_(fa, a), bv = dec_(fb, b);
     node_handle c = 0;
     mt_div__apply(fa, a, fb, b, fc, &c);
@@ -135,6 +143,10 @@ void h_mt_div_shortcuts(void) { struct forest *fa, *fb, *fc; node_handle w_a = n
 
 int lemma_mt_mod_kernel(struct forest *fa, struct forest *fb, struct forest *fc, node_handle a, node_handle b)
 {
+#ifdef ARITH_SMALL_OPERANDS
+    /* BOUNDED variant: 64-bit multiply / divide / remainder equivalences do not finish on any SAT back end; operands below 2^ARITH_SMALL_OPERANDS in magnitude */
+    { long sa_ = dec_(fa, a), sb_ = dec_(fb, b); __CPROVER_assume(-(1L << ARITH_SMALL_OPERANDS) < sa_ && sa_ < (1L << ARITH_SMALL_OPERANDS) && -(1L << ARITH_SMALL_OPERANDS) < sb_ && sb_ < (1L << ARITH_SMALL_OPERANDS)); }
+#endif
     long av = dec_(fa, a), bv = dec_(fb, b);
     node_handle c = 0;
     mt_mod__apply(fa, a, fb, b, fc, &c);
@@ -383,6 +395,10 @@ void h_evplus_mult_kernel(void) { struct edge_value *x, *y; node_handle w_ap = n
 
 int lemma_evplus_div_kernel(const struct edge_value *av_, node_handle ap, const struct edge_value *bv_, node_handle bp)
 {
+#ifdef ARITH_SMALL_OPERANDS
+    /* BOUNDED variant: operands below 2^ARITH_SMALL_OPERANDS in magnitude (the 64-bit divide / remainder equivalence does not finish) */
+    __CPROVER_assume(-(1L << ARITH_SMALL_OPERANDS) < av_->ev_long && av_->ev_long < (1L << ARITH_SMALL_OPERANDS) && -(1L << ARITH_SMALL_OPERANDS) < bv_->ev_long && bv_->ev_long < (1L << ARITH_SMALL_OPERANDS));
+#endif
     _Bool ai = (ap == OMEGA_INFINITY), bi = (bp == OMEGA_INFINITY); long av = av_->ev_long, bv = bv_->ev_long;
     struct edge_value cv; node_handle cn = 12345; cv.mytype = edge_type__VOID;
     evplus_div__apply(av_, ap, bv_, bp, &cv, &cn);
@@ -397,6 +413,10 @@ void h_evplus_div_kernel(void) { struct edge_value *x, *y; node_handle w_ap = no
 
 int lemma_evplus_mod_kernel(const struct edge_value *av_, node_handle ap, const struct edge_value *bv_, node_handle bp)
 {
+#ifdef ARITH_SMALL_OPERANDS
+    /* BOUNDED variant: operands below 2^ARITH_SMALL_OPERANDS in magnitude (the 64-bit divide / remainder equivalence does not finish) */
+    __CPROVER_assume(-(1L << ARITH_SMALL_OPERANDS) < av_->ev_long && av_->ev_long < (1L << ARITH_SMALL_OPERANDS) && -(1L << ARITH_SMALL_OPERANDS) < bv_->ev_long && bv_->ev_long < (1L << ARITH_SMALL_OPERANDS));
+#endif
     _Bool ai = (ap == OMEGA_INFINITY), bi = (bp == OMEGA_INFINITY); long av = av_->ev_long, bv = bv_->ev_long;
     struct edge_value cv; node_handle cn = 12345; cv.mytype = edge_type__VOID;
     evplus_mod__apply(av_, ap, bv_, bp, &cv, &cn);
